@@ -25,12 +25,12 @@ func zzBerLen(quick, thorough int) int {
 //
 //verif:property C18
 //verif:expect-reach end
-//verif:bound every buffer length 0..8 (quick) / 0..10 (thorough), content fully symbolic
+//verif:bound every buffer length 0..8 (quick) / 0..9 (thorough; 0..10 does not finish within the 600 s budget), content fully symbolic
 //verif:outside inputs longer than the bound (path count grows about 3x per byte); stack exhaustion by very deep nesting (recursion depth is shown <= len/2 only within the bound, see zzH_c18_ber_termination)
 //verif:unwind 40
 //verif:nomerge
 func zzH_c18_ber2der() {
-	L := vChoice("L", zzBerLen(8, 10)+1)
+	L := vChoice("L", zzBerLen(8, 9)+1)
 	b := vBytes("ber", L, L)
 	out, err := ber2der(b)
 	if err == nil {
@@ -76,12 +76,12 @@ func zzH_c18_readObject() {
 //
 //verif:property C18
 //verif:expect-reach end
-//verif:bound every buffer length 1..8 (quick) / 1..10 (thorough), content fully symbolic; unwinding bound 14 visits per block per frame
+//verif:bound every buffer length 1..8 (quick) / 1..9 (thorough), content fully symbolic; unwinding bound 14 visits per block per frame
 //verif:unwind 14
 //verif:unwind-violation
 //verif:nomerge
 func zzH_c18_ber_termination() {
-	L := 1 + vChoice("L", zzBerLen(8, 10))
+	L := 1 + vChoice("L", zzBerLen(8, 9))
 	b := vBytes("ber", L, L)
 	_, _, _ = readObject(b, 0)
 	vReach("end")
@@ -92,11 +92,11 @@ func zzH_c18_ber_termination() {
 //
 //verif:property C18
 //verif:expect-reach end
-//verif:bound every buffer length 2..6 (quick) / 2..8 (thorough), content fully symbolic; only inputs on which the first pass neither errs nor panics
+//verif:bound every buffer length 2..6 (quick) / 2..7 (thorough; at 8 feasibility queries come back unknown), content fully symbolic; only inputs on which the first pass neither errs nor panics
 //verif:unwind 40
 //verif:nomerge
 func zzH_c18_ber_reparse() {
-	L := 2 + vChoice("L", zzBerLen(6, 8)-1)
+	L := 2 + vChoice("L", zzBerLen(6, 7)-1)
 	b := vBytes("ber", L, L)
 	out, err := ber2der(b)
 	if err != nil || out == nil {
@@ -147,7 +147,7 @@ func zzH_c18_encodeLength() {
 //
 //verif:property C18
 //verif:expect-reach end
-//verif:bound buffer length 10 or 12 (quick) / each of 6..13 (thorough); length-of-length octet 0x84, 0x88 or 0x89 (quick) / 0x81..0x89 (thorough); tag octet and all length/content octets symbolic; quick: primitive tags only; thorough adds constructed tags and the nested variant 30 LL 30 8x ...
+//verif:bound buffer length 10 or 12 (quick) / 8 or 12 (thorough); length-of-length octet 0x84, 0x88 or 0x89 (quick) / {0x81,0x84,0x88,0x89} (thorough; larger products run over the 600 s budget); tag octet and all length/content octets symbolic; quick: primitive tags only; thorough adds constructed tags and the nested variant 30 LL 30 8x ...
 //verif:unwind 40
 //verif:nomerge
 func zzH_c18_ber_longform() {
@@ -157,8 +157,8 @@ func zzH_c18_ber_longform() {
 		L = []int{10, 12}[vChoice("L", 2)]
 		lo = []byte{0x84, 0x88, 0x89}[vChoice("lo", 3)]
 	} else {
-		L = 6 + vChoice("L", 8)
-		lo = 0x81 + byte(vChoice("lo", 9))
+		L = []int{8, 12}[vChoice("L", 2)]
+		lo = []byte{0x81, 0x84, 0x88, 0x89}[vChoice("lo", 4)]
 	}
 	b := vBytes("b", L, L)
 	if vTier() == 1 && vChoice("nested", 2) == 1 {
